@@ -66,6 +66,18 @@ def plans_for(tier, rng):
                 p = base_plan(cfgs, k, ident, f)
                 p["id"] = "cat%d" % k
                 plans.append(p); k += 1
+    # one authentication context (the x224 API takes it from the caller) serving two handshakes in a row: the second one
+    # draws its own session key, so what the first server learnt proves nothing to the second connection
+    for j, (f1, f2) in enumerate([({"kind": "honest"}, {"kind": "honest"}), ({"kind": "offset", "k": 2}, {"kind": "honest"}), ({"kind": "honest"}, {"kind": "wrong_key"}), ({"kind": "honest"}, {"kind": "bad_checksum", "i": 3})]):
+        for adm in (False, True):
+            p = base_plan([{"admin": adm, "blank": False, "hash": False}], 40 + j, "leaf", f1)
+            p["cfg"].update({"api": "x224", "mask": 3})
+            p["srv"]["mode"] = "negox"
+            p["id"] = "reuse%d-%d" % (j, adm)
+            q = json.loads(json.dumps(p))
+            q["srv"]["final"] = f2
+            p["then"] = {"cfg": q["cfg"], "srv": q["srv"]}
+            plans.append(p)
     # families: every single-bit flip of the honest reply, every truncation of token and of the request
     nbytes = 310        # the honest TSRequest is 0x30 0x82 len ... about 300 bytes with a 2048-bit key
     for i in range(nbytes * 8):
@@ -138,8 +150,8 @@ def run(tier, seed):
         for r in rejects:
             evs = [json.loads(x) for x in r["run_events"]]
             ev = json.loads(r["event"])
-            p = byid[evs[0]["run"]]
-            f = p["srv"]["final"]
+            p = byid[evs[0]["run"].split("#")[0]]
+            f = evs[0]["srv"]["final"]
             what = "c_der" if ev.get("ev") == "c_der" else ev.get("ev")
             key = "credssp:%s:%s:%s" % (f["kind"], what, ev.get("res", ev.get("end", "")))
             v.violation(key, "run %s (final reply %s, certificate %s, admin=%s blank=%s hash=%s): event %s has no matching action of Rdp.tla / fails an invariant%s" % (
